@@ -361,6 +361,42 @@ Definition enabled (modes : N) (m : EncodationType) : bool := negb (N.land modes
 (* state threaded through optimize: number of Plan::step calls *)
 Definition counter := N.
 
+(* the macro add_switch!(plan, mode, cost_extra) of add_switches: at most one plan pushed, one step *)
+Definition add_switch (g : generic_plan) (ctx : context) (ascii_cost : frac) (rest_len : N) (as_start : bool)
+  (mode : EncodationType) (cost_extra : N) (acc : list generic_plan * counter) : PR (list generic_plan * counter) :=
+  let (l, st) := acc in
+  let* switches :=
+    (if as_start then
+       if negb (Nat.eqb (length (gp_switches g)) 1) then Panic PAssert else Ok [(rest_len, mode)]
+     else Ok (gp_switches g ++ [(rest_len, mode)])) in
+  let ctx' := ctx_write ctx cost_extra in
+  let* stepped :=
+    match mode with
+    | Ascii => let* o := ap_step (ap_new ctx') in Ok (option_map (fun x => PAscii (snd x)) o)
+    | Base256 => Ok (option_map (fun x => PBase256 (snd x)) (bp_step (bp_new ctx')))
+    | Edifact => let* o := ep_step (ep_new ctx') in Ok (option_map (fun x => PEdifact (snd x)) o)
+    | X12 => let* o := xp_step (xp_new ctx') in Ok (option_map (fun x => PX12 (snd x)) o)
+    | Text => let* o := cp_step (cp_new true ctx') in Ok (option_map (fun x => PText (snd x)) o)
+    | C40 => let* o := cp_step (cp_new false ctx') in Ok (option_map (fun x => PC40 (snd x)) o)
+    end in
+  match stepped with
+  | Some pl => Ok (l ++ [mkgp (ascii_cost + frac_int cost_extra) switches pl], st + 1)
+  | None => Ok (l, st + 1)
+  end.
+
+(* the order in which add_switches tries the modes, with the latch cost of each *)
+Definition switch_order : list (EncodationType * N) :=
+  [(Ascii, 0); (Base256, 1); (Edifact, 1); (X12, 1); (Text, 1); (C40, 1)].
+
+Fixpoint add_switch_all (g : generic_plan) (ctx : context) (ascii_cost : frac) (rest_len : N) (as_start : bool)
+  (todo : list (EncodationType * N)) (acc : list generic_plan * counter) : PR (list generic_plan * counter) :=
+  match todo with
+  | [] => Ok acc
+  | (mode, extra) :: r =>
+    let* acc' := add_switch g ctx ascii_cost rest_len as_start mode extra acc in
+    add_switch_all g ctx ascii_cost rest_len as_start r acc'
+  end.
+
 (* add_switches(self, list, rest_len, as_start, enabled_modes): returns the plans pushed, in order *)
 Definition gp_add_switches (g : generic_plan) (rest_len : N) (as_start : bool) (modes : N) (steps : counter)
   : PR (list generic_plan * counter) :=
@@ -368,36 +404,9 @@ Definition gp_add_switches (g : generic_plan) (rest_len : N) (as_start : bool) (
   | None => Ok ([], steps)
   | Some ascii_cost =>
     let* ctx := gp_write_unlatch g in
-    let add (mode : EncodationType) (cost_extra : N) (acc : PR (list generic_plan * counter))
-        : PR (list generic_plan * counter) :=
-      let* (l, st) := acc in
-      let* switches :=
-        (if as_start then
-           if negb (Nat.eqb (length (gp_switches g)) 1) then Panic PAssert else Ok [(rest_len, mode)]
-         else Ok (gp_switches g ++ [(rest_len, mode)])) in
-      let ctx' := ctx_write ctx cost_extra in
-      let* stepped :=
-        match mode with
-        | Ascii => let* o := ap_step (ap_new ctx') in Ok (option_map (fun x => PAscii (snd x)) o)
-        | Base256 => Ok (option_map (fun x => PBase256 (snd x)) (bp_step (bp_new ctx')))
-        | Edifact => let* o := ep_step (ep_new ctx') in Ok (option_map (fun x => PEdifact (snd x)) o)
-        | X12 => let* o := xp_step (xp_new ctx') in Ok (option_map (fun x => PX12 (snd x)) o)
-        | Text => let* o := cp_step (cp_new true ctx') in Ok (option_map (fun x => PText (snd x)) o)
-        | C40 => let* o := cp_step (cp_new false ctx') in Ok (option_map (fun x => PC40 (snd x)) o)
-        end in
-      match stepped with
-      | Some pl => Ok (l ++ [mkgp (ascii_cost + frac_int cost_extra) switches pl], st + 1)
-      | None => Ok (l, st + 1)
-      end in
     let cur := gp_current g in
-    let acc := Ok ([], steps) in
-    let acc := if negb (et_eqb cur Ascii) && enabled modes Ascii then add Ascii 0 acc else acc in
-    let acc := if negb (et_eqb cur Base256) && enabled modes Base256 then add Base256 1 acc else acc in
-    let acc := if negb (et_eqb cur Edifact) && enabled modes Edifact then add Edifact 1 acc else acc in
-    let acc := if negb (et_eqb cur X12) && enabled modes X12 then add X12 1 acc else acc in
-    let acc := if negb (et_eqb cur Text) && enabled modes Text then add Text 1 acc else acc in
-    let acc := if negb (et_eqb cur C40) && enabled modes C40 then add C40 1 acc else acc in
-    acc
+    add_switch_all g ctx ascii_cost rest_len as_start
+      (filter (fun me => negb (et_eqb cur (fst me)) && enabled modes (fst me)) switch_order) ([], steps)
   end.
 
 Definition gp_cost_for_switching_to (g : generic_plan) (other : EncodationType) : PR (option frac) :=
